@@ -113,12 +113,8 @@ def syntactic(E):
                            all(p >= 0 for p in pos) and pos == sorted(pos), 'order %s' % order, props=('C11', 'C03'))
     rep, _, _ = E.find_def('shuffle.Shuffle.report')
     E.syntactic_obligation("Shuffle.report prints self.seed", 'self.seed' in ast.unparse(rep), props=('C11',))
-    init, _, isrc = E.find_def('shuffle.Shuffle.__init__')
-    E.syntactic_obligation("Shuffle.__init__ hands a generated seed on to child processes (original_testrunner_args += --shuffle-seed)",
-                           "'--shuffle-seed'" in isrc and 'original_testrunner_args' in isrc, props=('C11',))
-    sp, _, ssrc = E.find_def('runner.spawn_layer_in_subprocess')
-    E.syntactic_obligation("spawn_layer_in_subprocess passes options.original_testrunner_args[1:] to the child",
-                           'args.extend(options.original_testrunner_args[1:])' in ssrc, props=('C11', 'C03'))
+    # (that a generated seed is handed to the children is the postcondition of Shuffle.__init__, verified above)
+    # (that the child is started with the parent's original arguments is a call-site obligation at subprocess.Popen, C07/C03)
 
 
 ARGS = "runner.options.original_testrunner_args"
